@@ -43,7 +43,10 @@ def script? (w : String) : Option (Option (List Act)) :=
   else ((w.splitOn ",").mapM act?).map some
 
 /-- errno values the op file may name (`e<n>`); EAGAIN has its own token -/
-def errnoOk (n : Nat) : Bool := n == 4 || n == 5 || n == 12 || n == 28 || n == 32 || n == 104 || n == 105
+def errnoOk (n : Nat) : Bool :=
+  [4, 5, 12, 28, 32, 104, 105,
+   -- EBADF, EFAULT, EFBIG, ENETUNREACH, ENOTCONN, ETIMEDOUT, EHOSTUNREACH, EDQUOT
+   9, 14, 27, 101, 107, 110, 113, 122].contains n
 
 def wans? (w : String) : Option WAns :=
   if w == "ea" then some .eagain
@@ -302,7 +305,9 @@ def parse (ws : List String) : Option Net.Op :=
         if d ≤ 2147483647 then some d else none
       let k ← small? k 6
       if ds.length > 4 ∨ k = 0 then none
-      else if act == "stop" then pure (.knDelayAct ds k false) else if act == "cleanup" then pure (.knDelayAct ds k true) else none
+      else if act == "stop" then pure (.knDelayAct ds k false) else if act == "cleanup" then pure (.knDelayAct ds k true)
+      -- stop() and start() (its connect() refused at once); asked about the 1st failure it would restart for ever
+      else if act == "restart" ∧ k ≥ 2 then pure (.knDelayRe ds k) else none
   | ["nkcb", w, sc] => do
       let sc ← nscript? "pc" sc
       if w == "fail" then pure (.knScript 0 sc) else if w == "conn" then pure (.knScript 1 sc) else none
@@ -393,7 +398,8 @@ def tags (n n' : N) (op : Net.Op) : List String :=
    (match n.kn.dAct with
     | some (k, cl) =>
         let quietOp := !has (fun e => e == .knFailed || e == .knConnected) && (match op with | .knCleanup => false | .knStop => false | _ => true)
-        if !cl && quietOp && n'.kn.fails == k && k > base && n'.kn.st == .inited then ["net-delayfunc-stop"]
+        if !cl && n.kn.dRe && (evs.filter (· == .knStart)).length > (match op with | .knStart => 1 | _ => 0) && n'.kn.st == .delay then ["net-delayfunc-restart"]
+        else if !cl && quietOp && n'.kn.fails == k && k > base && n'.kn.st == .inited then ["net-delayfunc-stop"]
         else if cl && quietOp && n.kn.st != .none && n'.kn.st == .none then ["net-delayfunc-cleanup"] else []
     | none => []) ++
    (if (List.range n'.kn.fails).any (fun j => j + 1 > base && n'.kn.delayOf (j + 1) == 0) then ["net-retry-zero-delay"] else [])) ++
